@@ -323,7 +323,26 @@ def expansion_case(rng):
         order.append(nm)
     lines += ["program use_macros"]
     checks = []
+
+    def define(nm):
+        if rng.random() < 0.5:
+            body = rng.choice(BODIES)
+            lines.append(f"#define {nm} {body}".rstrip() if body else f"#define {nm}")
+            macros[nm] = body
+        else:
+            npar = rng.choice([0, 1, 2, 2, 3])
+            params = ["x", "y", "zz"][:npar]
+            body = rng.choice(FBODIES) if npar >= 2 else (rng.choice(["x*2", "(x)", "x\\x", "-x", "[x]"]) if npar == 1 else rng.choice(["42", "(1)", "a\\b"]))
+            lines.append(f"#define {nm}({','.join(params)}) {body}")
+            macros[nm] = (params, body)
+
     for _ in range(rng.randint(2, 8)):
+        if rng.random() < 0.3:
+            # a macro used above gets another definition (other body, possibly the other form), with or without #undef
+            nm_ = rng.choice(order)
+            if rng.random() < 0.7:
+                lines.append(f"#undef {nm_}")
+            define(nm_)
         used = rng.sample(order, min(len(order), rng.choice([1, 1, 2])))
         # function-like invocation must come last on the line (nothing with ')' after it), at most one function-like macro per line
         fl = [u for u in used if isinstance(macros[u], tuple)]
